@@ -3,8 +3,6 @@ package main
 import (
 	"fmt"
 	"go/ast"
-	"go/token"
-	"go/types"
 	"os"
 
 	"gnoverif/engine"
@@ -17,44 +15,24 @@ func main() {
 	}
 	for _, f := range p.Funcs() {
 		info := f.Info()
-		isPkgVar := func(e ast.Expr) *types.Var {
-			for {
-				switch x := ast.Unparen(e).(type) {
-				case *ast.IndexExpr:
-					e = x.X
-					continue
-				case *ast.SelectorExpr:
-					if v, ok := info.Uses[x.Sel].(*types.Var); ok && !v.IsField() && v.Parent() == v.Pkg().Scope() {
-						return v
-					}
-					e = x.X
-					continue
-				case *ast.StarExpr:
-					e = x.X
-					continue
-				case *ast.Ident:
-					if v, ok := info.ObjectOf(x).(*types.Var); ok && !v.IsField() && v.Pkg() != nil && v.Parent() == v.Pkg().Scope() {
-						return v
-					}
-				}
-				return nil
-			}
-		}
 		engine.InspectBody(f, func(n ast.Node) {
-			switch x := n.(type) {
-			case *ast.AssignStmt:
-				if x.Tok == token.DEFINE {
-					return
+			as, ok := n.(*ast.AssignStmt)
+			if !ok {
+				return
+			}
+			for i, r := range as.Rhs {
+				call, ok := r.(*ast.CallExpr)
+				if !ok || !engine.IsBuiltinCall(info, call, "append") || len(call.Args) == 0 || i >= len(as.Lhs) {
+					continue
 				}
-				for _, l := range x.Lhs {
-					if v := isPkgVar(l); v != nil {
-						fmt.Printf("GLOBALWRITE %s | %s | %s.%s\n", p.Pos(x.Pos()), f.Root().Name, engine.Rel(v.Pkg().Path()), v.Name())
-					}
+				src := engine.ObjOf(info, call.Args[0])
+				if src == nil {
+					continue // literal, call result, slice expr...
 				}
-			case *ast.IncDecStmt:
-				if v := isPkgVar(x.X); v != nil {
-					fmt.Printf("GLOBALWRITE %s | %s | %s.%s\n", p.Pos(x.Pos()), f.Root().Name, engine.Rel(v.Pkg().Path()), v.Name())
+				if engine.ObjOf(info, as.Lhs[i]) == src && engine.ExprString(as.Lhs[i]) == engine.ExprString(call.Args[0]) {
+					continue
 				}
+				fmt.Printf("APPENDALIAS %s | %s | %s = %s\n", p.Pos(as.Pos()), f.Name, engine.ExprString(as.Lhs[i]), engine.ExprString(call))
 			}
 		})
 	}
